@@ -110,5 +110,9 @@ pub fn run(cli: Cli) -> ! {
     rep.require("two-connection histories through the real Listener", n, 20);
     rep.set("histories_through_the_real_listener", json!(n));
     rep.assume("listener part: the client addresses are the sources announced in PROXY v1 / v2 headers over loopback TCP; an IPv4 address and its IPv4-mapped form are not judged");
+    // the assembled router: stage-wise schedules of two clients and of the shutdown signal against the real Listener,
+    // and the application started by passage::start from a configuration read by Config::read()
+    crate::world::host(&rep, "C02", cli.tier.thorough());
+    crate::app::host(&rep, "C02", cli.tier.thorough());
     rep.finish()
 }
